@@ -101,7 +101,16 @@ def h_roundtrip(spec, cls, raw, off, key, absolute_nonzero=False):
     if r is not None:
         if r.startswith("ok:"):
             return r
-        # acceptance / value disagreements belong to C04/C06/C08; C01 only speaks about accepted inputs
+        # acceptance / value disagreements belong to C04/C06/C08; without the reference's consumed intervals only the
+        # part of C01 that needs no oracle is checked: the output cannot be longer than what was there to traverse
+        p, end, err = run_real(cls, raw, off)
+        if p is not None:
+            try:
+                out = p.pack()
+            except PacketError:
+                return "ok:not-comparable"
+            if len(out) > len(raw) - off:
+                return "FAIL sig=C01|longer-than-input|%s out=%r raw=%r off=%r" % (key, out, raw, off)
         return "ok:not-comparable"
     tag = ""
     overl = _overlaps(ref.consumed)
@@ -525,7 +534,7 @@ def default_values(decl):
     return vals
 
 
-def h_defaults(spec, cls, ns, key, v, b):
+def h_defaults(spec, cls, ns, key, v, b, none_for_optional=False):
     """C19: Cls(**some) holds the declared default in every field not named and the given value in every field named"""
     names = [n for n, f in spec.fields if not isinstance(f, (S.Em, S.RefSel))]
     fields = dict(spec.fields)
@@ -551,6 +560,8 @@ def h_defaults(spec, cls, ns, key, v, b):
                     val = b
             elif isinstance(f, S.Seq) and isinstance(f.elem, (S.Int, S.Bits)):
                 val = [v, 7]
+            elif isinstance(f, S.Opt) and none_for_optional:
+                val = None            # an explicit None is a value like any other: it overrides a declared default
             elif isinstance(f, S.Opt) and isinstance(f.elem, (S.Int, S.Bits)):
                 val = v
             else:
